@@ -4,7 +4,9 @@ Model of configuration handling and of the size / limit arithmetic that consumes
 
   crates/core/src/commands/config.rs   `ConfigOptions::apply`  -> `apply`      (line by line, `?` = Except)
                                        `apply_config`          -> `applyConfig` (append-only guard, clone,
-                                                                   apply, compare, save)
+                                                                   apply, compare, save); `applyConfigH` = the same
+                                                                   with the handle's in-memory copy made explicit,
+                                                                   `applyMut` = `apply` on its `&mut` target
   crates/core/src/commands/init.rs     `init` (config part)    -> `initConfig`
   crates/core/src/repofile/configfile.rs  `ConfigFile`, `new`, getters `chunker/chunk_size/chunk_min_size/
         chunk_max_size/packsize/packsize_ok_percents/extra_verify/zstd`, defaults (regenerated constants)
@@ -258,6 +260,58 @@ def initConfig (id poly : Nat) (o : ConfigOptions) : Except Fail Store :=
   match apply o (ConfigFile.new 2 id poly) with
   | .error e => .error e
   | .ok c => .ok { config := c, writes := 1 }
+
+/-! ### the open handle's in-memory copy (`repo.config()`, `OpenStatus.config`)
+
+Every append-only guard of the library reads the IN-MEMORY config of the handle it is called on.  `apply` above
+returns the config only on success; the Rust `apply(&self, config: &mut ConfigFile)` assigns field after field and
+returns early on the first failing validation, so the `&mut` target is left PARTLY changed on `Err`.  `applySteps`
+lists the assignments / validations in source order (each fails without assigning, or assigns one field),
+`applyMut` is the target as `apply` leaves it.  `apply_config` therefore works on a clone (`applyConfigH`). -/
+
+/-- the assignments and validations of `ConfigOptions::apply` in source order. -/
+def applySteps (o : ConfigOptions) : List (ConfigFile → Except Fail ConfigFile) :=
+  [applyVersion o,
+   fun c => .ok { c with chunker := named o.setChunker c.chunker },
+   fun c => (namedConv toUsize o.setChunkSize c.chunkSize).map (fun v => { c with chunkSize := v }),
+   fun c => (namedConv toUsize o.setChunkMinSize c.chunkMinSize).map (fun v => { c with chunkMinSize := v }),
+   fun c => (namedConv toUsize o.setChunkMaxSize c.chunkMaxSize).map (fun v => { c with chunkMaxSize := v }),
+   validateChunker,
+   applyCompression o,
+   fun c => .ok { c with appendOnly := named o.setAppendOnly c.appendOnly },
+   fun c => (namedConv toU32 o.setTreepackSize c.treepackSize).map (fun v => { c with treepackSize := v }),
+   fun c => .ok { c with treepackGrowfactor := named o.setTreepackGrowfactor c.treepackGrowfactor },
+   fun c => (namedConv toU32 o.setTreepackSizeLimit c.treepackSizeLimit).map (fun v => { c with treepackSizeLimit := v }),
+   fun c => (namedConv toU32 o.setDatapackSize c.datapackSize).map (fun v => { c with datapackSize := v }),
+   fun c => .ok { c with datapackGrowfactor := named o.setDatapackGrowfactor c.datapackGrowfactor },
+   fun c => (namedConv toU32 o.setDatapackSizeLimit c.datapackSizeLimit).map (fun v => { c with datapackSizeLimit := v }),
+   applyMinPct o,
+   applyMaxPct o,
+   fun c => .ok (applyExtraVerify o c)]
+
+/-- run the steps on a `&mut` target: the target when the function returns, and the error it returned (if any). -/
+def runMut : List (ConfigFile → Except Fail ConfigFile) → ConfigFile → ConfigFile × Option Fail
+  | [], c => (c, none)
+  | f :: fs, c =>
+    match f c with
+    | .ok c' => runMut fs c'
+    | .error e => (c, some e)
+
+/-- `opts.apply(&mut config)`: `config` afterwards (partly assigned on `Err`) and the error. -/
+def applyMut (o : ConfigOptions) (c : ConfigFile) : ConfigFile × Option Fail := runMut (applySteps o) c
+
+/-- `apply_config` on an open handle whose in-memory config is `mem`, over the stored config `st`:
+`(in-memory config afterwards, store afterwards, result)`.  The guard reads the in-memory config; the options are
+applied to `let mut new_config = repo.config().clone()`; only when everything validated and something changed is the
+clone installed (`repo.set_config`) and saved. -/
+def applyConfigH (mem : ConfigFile) (st : Store) (o : ConfigOptions) : ConfigFile × Store × Except Fail Bool :=
+  if mem.appendOnly = some true ∧ o.setAppendOnly ≠ some false then (mem, st, .error (.err .appendOnly))
+  else
+    match applyMut o mem with
+    | (_, some e) => (mem, st, .error e)                       -- the partly assigned clone is dropped
+    | (c', none) =>
+      if c' = mem then (mem, st, .ok false)
+      else (c', { config := c', writes := st.writes + 1 }, .ok true)
 
 /-! ### packer.rs `PackSizer` -/
 structure PackSizer where
